@@ -341,7 +341,8 @@ def gen_pattern(g, alts=None, allow_id=True):
         k = r.random()
         g.f('pattern-pred')
         if k < 0.3:
-            return r.choice(['1', '2', '3', 'last()', 'last()-1', 'position()=1', 'position()>1', 'position()=last()', 'position() mod 2 = 1', 'position() < last()', '0'])
+            return r.choice(['1', '2', '3', 'last()', 'last()-1', 'position()=1', 'position()>1', 'position()=last()', 'position() mod 2 = 1', 'position() < last()', '0',
+                             'last() = 2', 'last() > 1', 'not(last() = 1)', 'last() mod 2 = 0', 'last() = count(../*)', 'last() >= 3 or @x', 'string(last()) = \'2\'', 'position() + 1 = last()'])
         if k < 0.5:
             return '@' + g.nametest(True)
         if k < 0.6:
